@@ -299,6 +299,11 @@ func (db *DB) Merge() error {
 		return errors.New("not support mode `HintBPTSparseIdxMode`")
 	}
 
+	// Merge reads the indexes, rewrites live entries and removes segment files:
+	// it must exclude every transaction, like a write transaction does.
+	db.mu.Lock()
+	defer db.mu.Unlock()
+
 	if db.closed {
 		return ErrDBClosed
 	}
@@ -1029,11 +1034,13 @@ func (db *DB) reWriteData(pendingMergeEntries []*Entry) error {
 	if len(pendingMergeEntries) == 0 {
 		return nil
 	}
-	tx, err := db.Begin(true)
+	// the caller (Merge) holds the database lock
+	tx, err := newTx(db, true)
 	if err != nil {
 		db.isMerging = false
 		return err
 	}
+	tx.lockHeld = true
 
 	dataFile, err := NewDataFile(db.getDataPath(db.MaxFileID+1), db.opt.SegmentSize, db.opt.RWMode)
 	if err != nil {
